@@ -233,5 +233,10 @@ async fn renew_certificate(
 			certificate.warn(&e.message);
 		}
 	};
+	if !is_success {
+		// Do not start the next attempt right away: without a certificate on
+		// disk the renewal is immediately due again.
+		sleep(Duration::from_secs(crate::DEFAULT_RENEW_FAIL_WAIT_SEC)).await;
+	}
 	(certificate, account_s.clone(), endpoint_s.clone())
 }
